@@ -128,6 +128,10 @@ class VerifyAttrs(object):
                         attr, node.ast.name, node.linenumber
                     )
                 )
+        if ast.attrs["name"] is True:
+            raise RuntimeError(
+                "name attribute must have a value for function '{}' at line {}"
+                .format(node.ast.name, node.linenumber))
         if ast.get_subprogram() == "function":
             ast.metaattrs["intent"] = "result"
         self.check_common_attrs(node.ast)
@@ -175,6 +179,10 @@ class VerifyAttrs(object):
                 intent = "inout"
             # XXX - Do hidden arguments need intent?
         else:
+            if not isinstance(intent, str):
+                raise RuntimeError(
+                    "intent attribute must have a value of"
+                    " in, out or inout for argument '{}'".format(arg.name))
             intent = intent.lower()
             if intent in ["in", "out", "inout"]:
                 meta["intent"] = intent
@@ -243,7 +251,7 @@ class VerifyAttrs(object):
         # dimension
         dimension = attrs["dimension"]
         rank = attrs["rank"]
-        if rank:
+        if rank is not None:
             if rank is True:
                 raise RuntimeError(
                     "'rank' attribute must have an integer value"
@@ -369,6 +377,10 @@ class VerifyAttrs(object):
                 )
             )
 
+        if attrs["name"] is True:
+            raise RuntimeError(
+                "name attribute must have a value for argument '{}'"
+                .format(argname))
         intent = self.check_intent_attr(node, arg)
         self.check_common_attrs(arg)
 
@@ -2009,6 +2021,10 @@ def check_implied_attrs(context, decls):
     for decl in decls:
         expr = decl.attrs["implied"]
         if expr:
+            if not isinstance(expr, str):
+                raise RuntimeError(
+                    "implied attribute must have a value for argument '{}'"
+                    " at line {}".format(decl.name, context.linenumber))
             check_implied(context, expr, decls)
 
 
